@@ -8,7 +8,8 @@
     must refute the properties (non-vacuity).  spec/discovery/DiscoveryParse.tla: expected outcome of
     every abstract TXT-record / address-list / manufacturer-data class.
 (B) spec -> code: every parse class exported by DiscoveryParse_Cases is concretised (real AsyncServiceInfo /
-    AdvertisementData) and processed by the real controllers with no / cached / uncached pairing loaded;
+    AdvertisementData) and processed by the real controllers under every pairing situation (none; cached / uncached state x loaded
+    before / after the first advertisement x shut down while loaded or not);
     `tlc -simulate` behaviours of Discovery are replayed as stimuli (cancel and timer steps placed between
     loop iterations) on the real IpController / CoAPController / BleController / Controller.
 (C) code -> spec: every execution of (B) and seeded random schedules (with fuzzed TXT values, blobs and
@@ -31,6 +32,8 @@ from harness.common import SPEC, MachineryError
 
 AREA = os.path.join(SPEC, "discovery")
 TRS = ("ip", "coap", "ble")
+# pairing situations of an id (Discovery.tla: PSituations)
+SITUATIONS = ["none"] + [s + a + z for s in ("cached", "nocache") for a in ("", "-after") for z in ("", "-shut")]
 ABSENT, BAD, ODD = -1, -2, -3
 
 
@@ -208,7 +211,7 @@ def _random_schedule(args):
     from harness import c19_driver as D
     rng = random.Random(seed)
     pools = Pools(cases)
-    pm = {i: rng.choice(["none", "cached", "nocache"]) for i in ("x", "y")}
+    pm = {i: rng.choice(SITUATIONS) for i in ("x", "y")}
     w = D.World(pm, tag=rid)
     free_w = [f"w{i}" for i in range(1, 7)]
     free_g = ["g1", "g2"]
@@ -382,7 +385,7 @@ def run(ctx):
         # non-vacuity: the tree before the fixes, as a model, is refuted
         for sw, pmodes, expect in (("Register", None, {"NoLostWakeup", "AlreadyKnownReturnsAtOnce", "OtherWaitersUndisturbed"}),
                                    ("DoneGuard", None, {"CallbackNeverRaises"}),
-                                   ("CacheGuard", '{"nocache", "none"}', {"CallbackNeverRaises"})):
+                                   ("CacheGuard", '{"nocache-shut", "nocache-after", "none"}', {"CallbackNeverRaises"})):
             sub = [(f"{sw} = TRUE", f"{sw} = FALSE"), ('Waiters = {"w1", "w2", "w3"}', 'Waiters = {"w1", "w2"}')]
             if pmodes:
                 sub.append(('PModes = {"cached"}', f"PModes = {pmodes}"))
@@ -409,7 +412,7 @@ def run(ctx):
                 small += rng.sample(grp, min(len(grp), 150))
         Pools(small)
         # (B) bulk: every class, under the three pairing situations
-        modes = ["none", "cached", "nocache"]
+        modes = SITUATIONS
         jobs_p = []
         per = 400
         mdns = [c["r"] for c in cases if c["r"]["kind"] == "mdns"]
@@ -417,9 +420,9 @@ def run(ctx):
         k = 0
         for off in range(0, len(mdns), per):
             items = [(("ip", "coap")[(off + j) % 2], ("x", "y")[j % 2], r) for j, r in enumerate(mdns[off:off + per])]
-            jobs_p.append((f"parse{k}", {"x": modes[k % 3], "y": modes[(k + 1) % 3]}, items))
+            jobs_p.append((f"parse{k}", {"x": modes[k % len(modes)], "y": modes[(k + 4) % len(modes)]}, items))
             k += 1
-        for mode in modes:            # every BLE class under every pairing situation
+        for mode in SITUATIONS:       # every BLE class under every pairing situation (state x load order x shut down)
             for off in range(0, len(ble), per):
                 items = [("ble", ("x", "y")[j % 2], r) for j, r in enumerate(ble[off:off + per])]
                 jobs_p.append((f"parse{k}", {"x": mode, "y": mode}, items))
